@@ -341,7 +341,7 @@ type typeOpts struct {
 }
 
 var genNames = []string{"A", "B", "Cc", "Dd", "Field", "X1", "a", "b", "Zz", "Name", "ID", "aB"}
-var tagNames = []string{"", "", "a", "b", "x", "name", "A", " sp ", "-", "cc", "key"}
+var tagNames = []string{"", "", "a", "b", "x", "name", "A", " sp ", "-", "cc", "key", "omit", "omitempty", "inline", "squash"}
 var tagOptsPool = []string{"", "", "", ",omitempty", ",omit", ",inline", ",squash", ", omitempty", ",omitempty ", ",unknown", ",omitempty,inline", ",omitempty,omit", ",inline,unknown", ",,omitempty"}
 
 func (r *rng) primType() reflect.Type {
@@ -450,7 +450,8 @@ func (r *rng) genStruct(o typeOpts) reflect.Type {
 var gIntPool = []int64{0, 1, -1, 2, 23, 24, 127, 128, -128, -129, 255, 256, 32767, 32768, -32768, -32769, 65535, 65536,
 	2147483647, 2147483648, -2147483648, -2147483649, 4294967295, 4294967296, math.MaxInt64, math.MinInt64, 42, 1000000}
 var gUintPool = []uint64{0, 1, 2, 127, 128, 255, 256, 65535, 65536, 4294967295, 4294967296, math.MaxInt64, math.MaxInt64 + 1, math.MaxUint64, 7, 300}
-var floatPool = []float64{0, math.Copysign(0, -1), 1, -1, 0.5, 1.5, 3.141592653589793, 1e-7, 1e21, 123456789, math.MaxFloat64, math.SmallestNonzeroFloat64, 1e6, 100000, 0.0001}
+var floatPool = []float64{0, math.Copysign(0, -1), 1, -1, 0.5, 1.5, 3.141592653589793, 1e-7, 1e21, 123456789, math.MaxFloat64, math.SmallestNonzeroFloat64, 1e6, 100000, 0.0001,
+	9223372036854775808, 1e19, 1.8446744073709550e19, 9223372036854774784, -9223372036854775808, 4294967296, 2147483648, 255, 256, 65535, 65536}
 var gStrPool = []string{"", "a", "abc", "key", "hello world", "éè", "日本", "\"q\"", "a\nb", "<&>", "\x00", "\xff\xfe", "k1", "k2", "x"}
 
 func (r *rng) genGoValue(t reflect.Type, depth int) reflect.Value {
